@@ -380,8 +380,21 @@ class SPAnalysis:
                             if isinstance(b, ast.Name):
                                 defs.setdefault(b.id, []).append(n.value)
             self._defs[fi.key] = defs
+            # a name bound once (a parameter, or one assignment) and stored whole into self.<f> IS that field's value
+            al = {}
+            for n in walk_own(fi.node):
+                if isinstance(n, ast.Assign) and len(n.targets) == 1 and isinstance(n.targets[0], ast.Attribute) and self_field(n.targets[0]) \
+                        and isinstance(n.value, ast.Name):
+                    nm = n.value.id
+                    nb = len(defs.get(nm, [])) + (1 if nm in fi.params else 0)
+                    if nb == 1:
+                        al.setdefault(nm, set()).add(self_field(n.targets[0]))
+            self._aliases[fi.key] = al
+        al = self._aliases.get(fi.key, {})
         out = set()
         for n in ast.walk(expr):
+            if isinstance(n, ast.Name) and n.id in al:
+                out |= al[n.id]
             if isinstance(n, ast.Attribute) and isinstance(n.value, ast.Name) and n.value.id == 'self':
                 out.add(n.attr)
             elif isinstance(n, ast.Name) and n.id in defs and n.id not in seen:
@@ -394,6 +407,7 @@ class SPAnalysis:
         """Instance fields that store a value computed only from the plate-fixed joint tables (directly or through another
         such field): {field: source fields}.  Fields recomputed by _IKHelper (they also depend on the pose) are not caches."""
         self._defs = {}
+        self._aliases = {}
         stores = []
         for name, fi in self.sp.methods.items():
             for n in walk_own(fi.node):
